@@ -10,16 +10,16 @@ ID = 'C12'
 LEVEL = 'fault_enumeration'
 TIERS = {'quick': 9000, 'thorough': 300000}
 RULE = ('scenario connect -> shell -> stat -> list -> pull -> push (+ variants with streaming_shell, exec_out and callbacks). A fault-free probe run counts '
-        'its transport calls N; then a fault of kind {timeout, reset (persistent), EOF (persistent), single empty read, write timeout, broken pipe} is '
+        'its transport calls N; then a fault of kind {timeout, reset (persistent), EOF (persistent), single empty read, write timeout, broken pipe, write that was delivered but reported as timed out (asyncio semantics)} is '
         'injected at call index k (in a fifth of the cases the transport\'s close() called by the recovery fails too). Two fixed small scenarios are enumerated for every k < N and every kind (sync and async; thorough: four scenarios); the remaining runs sample '
         '(scenario, k, kind) and pairs of faults by seed. After the first failing operation: lock states are read, close(), connect() to a fresh healthy '
         'device session, and the whole scenario again, compared with ground truth. non-trivial / distinct = distinct (scenario, call index, kind, '
         'operation in progress) in which the fault actually fired')
 ASSUMPTIONS = ['after a surfaced transport error only recovery is required, not continued use of the broken session',
                'a transport failure closes nothing by itself: the harness calls close() and connect() as a user would']
-EXPECT_PROBES = {'all': ['fault_timeout', 'fault_reset', 'fault_eof', 'fault_empty', 'fault_wtimeout', 'fault_epipe', 'c12_fault_in_connect', 'c12_fault_in_push', 'c12_op_survived_fault', 'c12_close_failed']}
+EXPECT_PROBES = {'all': ['fault_timeout', 'fault_reset', 'fault_eof', 'fault_empty', 'fault_wtimeout', 'fault_epipe', 'fault_wdelivered', 'short_writes', 'c12_fault_in_connect', 'c12_fault_in_push', 'c12_op_survived_fault', 'c12_close_failed']}
 OWN = ('wrong-result', 'lock-held', 'recovery-failed', 'recovery-wrong-result', 'hang', 'no-termination', 'push-content', 'stale-state')
-KINDS = ['timeout', 'reset', 'eof', 'empty', 'wtimeout', 'epipe']
+KINDS = ['timeout', 'reset', 'eof', 'empty', 'wtimeout', 'epipe', 'wdelivered']
 KMAX = 120
 
 
@@ -74,6 +74,8 @@ def generate(seed, tier):
         if plan['policy'] in ('one', 'tiny'):
             plan['policy'] = 'random'
     cfg = {'frag': g.pick(['whole', 'mixed', 'boundary']), 'call_cost': 1e-4, 'idle_cost': 0.05}
+    if g.chance(0.2):
+        cfg['short'] = 'pos'      # the transport also writes short, so a fault can land between the pieces of one message
     scn = {'api': g.pick(['sync', 'async']), 'transport': 'mem', 'device': d, 'config': cfg, 'actors': [[{'op': 'connect', 'rt': 2.0, 'tt': 1.0}] + ops], 'object': {'banner': 'simhost'}}
     faults = [{'pick': g.int(0, 1 << 30), 'kind': g.pick(KINDS)}]
     if g.chance(0.25):
